@@ -4,6 +4,8 @@ import (
 	"bytes"
 	"encoding/json"
 	"fmt"
+	"github.com/alibaba/RedisShake/redis-shake/dbSync"
+	"golang.org/x/sync/semaphore"
 	"io/ioutil"
 	"os"
 	"path/filepath"
@@ -39,7 +41,7 @@ type c19arg struct {
 	LogFile  string `json:"log_file"`
 }
 
-var c19scenarios = []string{"sync-full-incr-reconnect", "sync-resume-checkpoint", "sync-psync-refused-restart", "restore", "rump", "dump", "supervisor", "checkpoint-load", "status-documents"}
+var c19scenarios = []string{"sync-full-incr-reconnect", "sync-resume-checkpoint", "sync-psync-refused-restart", "restore", "rump", "dump", "supervisor", "sync-cluster-source", "checkpoint-load", "status-documents"}
 
 func setLevel(l string) {
 	switch l {
@@ -162,6 +164,27 @@ func c19scenarioChild(raw json.RawMessage, scratch string) {
 		in := slot.SyncNode{Id: 3, Source: bad.addr, SourcePassword: a.SrcPw, Target: []string{"127.0.0.1:1"}, TargetPassword: a.TgtPw, Slaves: []string{good.addr, "127.77.9.9:9"}, SlotLeftBoundary: 0, SlotRightBoundary: 100}
 		nd, err := slotsupervisor.New(in).GetSlotState()
 		log.Infof("supervisor result: %v err=%v", nd != nil, err)
+	case "sync-cluster-source":
+		// the use at sync start: DbSyncer.Sync() with source.type=cluster re-discovers the shard's master (the configured
+		// source is a dead node, a known replica was promoted), runs full + incremental sync, loses the link and restarts
+		c := base
+		c.SourceType = conf.RedisTypeCluster
+		master, _ := fakesource.New(fakesource.Script{RunID: e2eRunID, StartOffset: 10, RDB: minimalRDB(rng, c19keys(rng)), ResumeMode: "refuse"}, a.SrcPw)
+		dead := &fakeNode{Script: []string{bErr}}
+		dead.start()
+		other := &fakeNode{Script: []string{bSlave}}
+		other.start()
+		_, tcp := newTarget()
+		c.SourceAddressList, c.TargetAddressList = []string{dead.addr}, []string{tcp.Addr}
+		conf.Options = c
+		node := &slot.SyncNode{Id: 7, Source: dead.addr, SourcePassword: a.SrcPw, Target: []string{tcp.Addr}, TargetPassword: a.TgtPw, SlotLeftBoundary: -1, SlotRightBoundary: -1, Slaves: []string{other.addr, master.Addr, "127.77.9.8:9"}}
+		ds := dbSync.NewDbSyncer(node, 9320, semaphore.NewWeighted(2))
+		go ds.Sync()
+		master.Feed(stream[:len(stream)/2])
+		time.Sleep(1500 * time.Millisecond)
+		master.DropNow() // the resume is refused: the syncer reports the error and starts over (topology discovery included)
+		time.Sleep(3 * time.Second)
+		extra("DbSyncer.GetExtraInfo", ds.GetExtraInfo())
 	case "checkpoint-load":
 		conf.Options = base
 		srv, tcp := newTarget()
@@ -184,7 +207,7 @@ var logCallRe = regexp.MustCompile(`\[(?:INFO|WARN|ERROR|DEBUG|PANIC)\][^\n]{0,1
 
 func c19(c *wk.Ctx) {
 	r := c.R
-	r.Rule = "every run path (sync start + full + incremental + source reconnect via CmdSync.Main, resume with checkpoint load, restart after a refused PSYNC until the retry budget ends the process, restore mode, rump, dump, shard supervisor with failing nodes, checkpoint load incl. a wrong password, the status documents) x log levels {debug, info, warn, error} runs in a child whose log.StdLog is redirected into a file, with distinct sentinel passwords that the fake peers really require; every byte logged plus json/%v/%+v renderings of conf.GetSafeOptions(), metric.NewMetricRest() and GetDetailedInfo() is scanned for the sentinels. distinct = (scenario, level)"
+	r.Rule = "every run path (sync start + full + incremental + source reconnect via CmdSync.Main, resume with checkpoint load, restart after a refused PSYNC until the retry budget ends the process, restore mode, rump, dump, shard supervisor with failing nodes, DbSyncer.Sync() with source.type=cluster (topology re-discovery at every start and restart), checkpoint load incl. a wrong password, the status documents) x log levels {debug, info, warn, error} runs in a child whose log.StdLog is redirected into a file, with distinct sentinel passwords that the fake peers really require; every byte logged plus json/%v/%+v renderings of conf.GetSafeOptions(), metric.NewMetricRest() and GetDetailedInfo() is scanned for the sentinels. distinct = (scenario, level)"
 	srcPw := fmt.Sprintf("S3NT-src-%d", c.Seed)
 	tgtPw := fmt.Sprintf("S3NT-tgt-%d", c.Seed)
 	levels := []string{"debug", "info", "warn", "error"}
